@@ -140,8 +140,24 @@ _rolling_hash2_run(struct isal_rh_state2 *state, uint8_t *buffer, uint32_t buffe
                 }
         }
 
-        hash = _rolling_hash2_run_until(&i, buffer_length, state->table1, state->table2, buffer,
-                                        buffer - w, hash, mask, trigger);
+        // _rolling_hash2_run_until() takes its indices as int: scan at most 2^30 bytes per call.
+        // An optimized scan stops wherever the masked bits match; unless that is a hit, go on.
+        for (;;) {
+                uint32_t base = i - w, n = buffer_length - base;
+
+                if (n > (1u << 30))
+                        n = 1u << 30;
+                i = w;
+                hash = _rolling_hash2_run_until(&i, n, state->table1, state->table2, buffer + base,
+                                                buffer + base - w, hash, mask, trigger);
+                if ((hash & mask) == trigger) {
+                        i += base;
+                        break;
+                }
+                i += base + (i < n);
+                if (i >= buffer_length)
+                        break;
+        }
         if ((hash & mask) == trigger) {
                 // found hit
                 i++;
